@@ -129,9 +129,7 @@ def _step(env, cfg, ctx):
     if changed:
         env.claim('stored_only_at_the_scheduled_index', eq(nxt, n + 1))
         env.claim('exactly_one_slot_takes_the_arrival', len(changed) == 1 and xs[changed[0]] is x_new)
-        env.claim('slot_uniform_over_k', len(slots) == 1 and
-                  ((slots[0][0] == 'randrange' and slots[0][1] == (0, k)) or (slots[0][0] == 'randint' and slots[0][1] == (0, k - 1)))
-                  and slots[0][2] == changed[0])
+        # the slot distribution itself is decided after exploration from the exact path weights (post_explore)
         if cfg['targets']:
             env.claim('target_in_same_slot', all(same_term(ys_a[i], y_new if i == changed[0] else ys[i]) for i in range(k)))
         env.claim('two_fresh_uniform_draws', len(uniforms) == 2)
@@ -153,6 +151,26 @@ def _step(env, cfg, ctx):
     env.claim('invariant_reestablished', And(W2 > 0, W2 < 1, nxt2 > n + 1))
     if not cfg['targets']:
         env.claim('no_targets_kept', len(ys_a) == 0)
+    w, _terms = env.path_weight()
+    return {'slot': changed[0] if len(changed) == 1 else None, 'weight': w}
+
+
+def post_explore(env, cfg, results):
+    """P(slot = i | the arrival is stored) = 1/k for every slot, from the exact weights of the discrete draws"""
+    if cfg['group'] != 'step':
+        return
+    import z3
+    from fractions import Fraction
+    from symx.core import Failure
+    k = cfg['k']
+    acc = [r for r in results if r and r['slot'] is not None]
+    tot = sum((r['weight'] for r in acc), Fraction(0))
+    for i in range(k):
+        wi = sum((r['weight'] for r in acc if r['slot'] == i), Fraction(0))
+        ok, model = env.global_claim(f"slot_uniform_over_k[k={k},slot={i}]", z3.RealVal(wi) * k == z3.RealVal(tot))
+        if ok is False:
+            env.failures.append(Failure('slot_uniform_over_k', [], model,
+                                        f"P(slot {i} | stored) = {wi / tot if tot else 'n/a'} instead of 1/{k}"))
 
 
 # ---- concrete replay ----------------------------------------------------------------------------
@@ -171,6 +189,9 @@ class _Scripted:
 
     def randint(self, a, b):
         return a + min(self.slot, b - a)
+
+    def getrandbits(self, k):
+        return self.slot % (2 ** k) if k else 0
 
 
 def _grid_divergence(k):
@@ -235,11 +256,9 @@ def _concrete_replay(env, cfg):
     k = cfg['k']
     div = _grid_divergence(k)
     env.notes['grid_divergence'] = div[:3]
-    if not div:
-        return      # refinement failure not reproducible on real floats: reported as unreproduced
     seed = int(os.environ.get('VERIF_SEED', '0') or 0)
     worst = None
-    for (kk, nn) in ((1, 3), (2, 4)):
+    for (kk, nn) in ((1, 3), (2, 4), (3, 7)):
         runs = 60000
         freq = _monte_carlo(kk, nn, runs, seed + 17)
         p = kk / nn
@@ -249,5 +268,5 @@ def _concrete_replay(env, cfg):
             worst = (dev / sigma, kk, nn, [round(f, 4) for f in freq])
     env.notes['monte_carlo'] = worst
     env.claim('uniform_inclusion_probabilities', worst[0] <= 6.0,
-              detail=f"not an Algorithm-L step at e.g. {div[0]}; real class k={worst[1]}, n={worst[2]}: inclusion "
+              detail=f"{'not an Algorithm-L step at e.g. ' + str(div[0]) if div else 'state updates follow Algorithm L'}; real class k={worst[1]}, n={worst[2]}: inclusion "
                      f"frequencies {worst[3]} vs {worst[1]}/{worst[2]} ({worst[0]:.0f} sigma, 60000 runs)")
